@@ -464,8 +464,8 @@ def t_process_queue(E):
                      props={'C03', 'C08'})
             if st.get('p0') is not None:
                 E.oblige(Qn + '/call.every_dequeued_producer_is_loaded_before_the_function_runs',
-                         z3.BoolVal(st.get('p0_state') == 'loaded'), props={'C03'})
-                E.oblige(Qn + '/call.loaded_elements_are_offered', z3.Select(E.w['in_set'], st['x0']), props={'C03'})
+                         z3.BoolVal(st.get('p0_state') == 'loaded'), props={'C03', 'C07'})
+                E.oblige(Qn + '/call.loaded_elements_are_offered', z3.Select(E.w['in_set'], st['x0']), props={'C03', 'C07'})
             E.oblige(Qn + '/call.function_runs_only_right_after_its_own_quiet_period_or_flush',
                      z3.BoolVal(bool(st['events']) and st['events'][-1] in ('getting:timeout', 'getting:flush')),
                      props={'C08'}, detail='every call (a retry too) is preceded by a timed read that expired or was '
@@ -525,7 +525,7 @@ def t_process_queue(E):
             def mark_loaded():
                 if is_p0:
                     E.oblige(Qn + '/load.every_element_produced_before_the_end_or_failure_is_in_the_set',
-                             z3.Select(E.w['in_set'], st['x0']), props={'C03'})
+                             z3.Select(E.w['in_set'], st['x0']), props={'C03', 'C07'})
                     st['p0_state'] = 'loaded'
             try:
                 E.cut_loop(stn, fr, inv, havoc, test=test, bind=bind, label='load')
@@ -951,7 +951,7 @@ def t_wait(E):
         cs = [x for x in log if x[0] == 'cancel']
         E.oblige(Qn + '/ensures.at_most_one_flush_request', z3.BoolVal(len(cs) <= 1))
         if cs:
-            E.oblige(Qn + '/flush.only_when_asked_to', cancel.t)
+            E.oblige(Qn + '/flush.only_when_asked_to', cancel.t, props={'C07', 'C08'})
             E.oblige(Qn + '/flush.yields_once_before_cancelling_so_queued_items_join_the_round',
                      z3.BoolVal('yield' in kinds and kinds.index('yield') < kinds.index('cancel')))
             fr_, done_ = cs[0][1], cs[0][2]
@@ -966,7 +966,7 @@ def t_wait(E):
 
 TASKS.update({
     'buffer.small_functions': (t_small, {'C03', 'C07', 'C08', 'C15'}),
-    'buffer.wait': (t_wait, {'C07'}),
+    'buffer.wait': (t_wait, {'C07', 'C08'}),
 })
 
 
